@@ -156,7 +156,7 @@ func (c *monC02) End(m *Machine) *Violation { return nil }
 var kindsC02 = []wk{
 	{"login", 24}, {"otplogin", 5}, {"recstart", 3}, {"recend", 4}, {"totpvalidate", 14}, {"smsvalidate", 16}, {"smsresend", 8},
 	{"advance", 10}, {"newsess", 3}, {"logout", 2}, {"visit", 3}, {"smssetup", 2}, {"smsconfirm", 1}, {"totpsetup", 1}, {"get", 1},
-	{"snip:2fa", 10}, {"snip:setupcarry", 5}, {"snip:rec2fa", 5}, {"snip:numberswap", 4}, {"setphone", 2}, {"snip:recover", 3}, {"snip:otp", 1}, {"lock", 1}, {"unlock", 1}, {"register", 4},
+	{"snip:2fa", 10}, {"snip:setupcarry", 5}, {"snip:rec2fa", 5}, {"snip:numberswap", 4}, {"setphone", 2}, {"snip:recover", 3}, {"snip:otp", 1}, {"lock", 1}, {"unlock", 1}, {"register", 4}, {"snip:switch2fa", 6},
 }
 
 var profC02 = profile{
